@@ -79,6 +79,18 @@ class Finder(ast.NodeVisitor):
         src = self.src[slice(*self.seg(node.test))]
         if src.strip() in ('LOG', 'debug.logger', 'logger'):
             return                                      # debug logging block
+        if 'version_info' in src:
+            # interpreter-version switch: only the branch this interpreter takes is live, the test itself is not mutated
+            try:
+                import sys as _sys
+                import platform as _pf
+                live = node.body if eval(src, {'sys': _sys, 'version_info': _sys.version_info, 'platform': _pf,
+                                                'implementation': _pf.python_implementation()}) else node.orelse
+            except Exception:
+                live = node.body + node.orelse
+            for st in live:
+                self.visit(st)
+            return
         if self.func:
             a, b = self.seg(node.test)
             if isinstance(node.test, ast.UnaryOp) and isinstance(node.test.op, ast.Not):
@@ -242,7 +254,7 @@ def kill(maxn):
             shutil.rmtree(d, ignore_errors=True)
         return m['id'], out
     todo = [m for m in data['survivors'] if m['id'] not in done][:maxn]
-    with ThreadPoolExecutor(4) as ex:
+    with ThreadPoolExecutor(int(os.environ.get("AM_WORKERS", "4"))) as ex:
         for mid, out in ex.map(one, todo):
             done[mid] = out
             json.dump(done, open(path, 'w'), indent=1)
